@@ -10,10 +10,22 @@ import facts
 fdir, sha, _ = facts.build_facts("all")
 prog = facts.Program(fdir)
 import inline
-rows = sorted(set("%s\t%s" % (b.qname, inline.signature(b)) for b in prog.bodies.values()
-                  if b.crate in ("simple_dns", "simple_mdns") and b.kind in ("Fn", "AssocFn")))
+import callgraph
+cg = callgraph.CallGraph(prog)
+callers = {}
+for x, outs in cg.edges.items():
+    bx = prog.bodies[x]
+    top = prog.bodies.get(bx.root, bx) if bx.kind == "Closure" else bx
+    for (y, bi, why) in outs:
+        if why in ("cha", "bound") or y == top.id:
+            continue
+        by = prog.bodies[y]
+        if by.crate in ("simple_dns", "simple_mdns") and top.crate in ("simple_dns", "simple_mdns"):
+            callers.setdefault(by.qname, set()).add(top.qname)
+rows = sorted(set("%s\t%s\t%s" % (b.qname, inline.signature(b), ";".join(sorted(callers.get(b.qname, ()))))
+                  for b in prog.bodies.values() if b.crate in ("simple_dns", "simple_mdns") and b.kind in ("Fn", "AssocFn")))
 with open("/verif/tables/functions.tsv", "w") as fh:
-    fh.write("# qname <tab> signature (types of the parameters -> return type) of every function of the reference tree (facts %s);\n"
+    fh.write("# qname <tab> signature (types of the parameters -> return type) <tab> direct callers, of every function of the reference tree (facts %s);\n"
              "# a function that is not listed is a transparent helper, unless it is the only new function with the signature of a\n"
              "# listed function that has disappeared from the same crate (then it is that function, renamed)\n" % sha[:12])
     for r in rows:
